@@ -229,6 +229,15 @@ def required_names(entry, helpers, prefix_filtered=False):
 # the reference model
 
 
+def label(b):
+    """namespace kind + construct that made the binding: the root-cause proxy of a lost definition"""
+    if b is None:
+        return "none"
+    where = "module" if b["frame"].kind == "module" else "local"
+    flag = "(not-exported)" if not b["exported"] and b["how"] in ("require-bare", "require-as") else ""
+    return "%s:%s%s" % (where, b["how"], flag)
+
+
 class Frame:
     def __init__(self, kind, opi):
         self.kind = kind
@@ -281,12 +290,6 @@ def build(case, prefix_filtered=False):
             else:
                 classes.add("warning:silenced-by-pragma")
         return b
-
-    def label(b):
-        if b is None:
-            return "none"
-        where = "module" if b["frame"].kind == "module" else "local"
-        return "%s:%s%s" % (where, b["how"], "" if b["exported"] else "(not-exported)")
 
     for opi, op in enumerate(ops):
         k = op[0]
@@ -348,10 +351,11 @@ def build(case, prefix_filtered=False):
                 pending_local.append(opi)
         elif k == "snap":
             here["stack"] = list(stack)
-            vis = set()
+            vis = {}
             for f in stack[1:]:
                 vis.update(f.macros)
             here["snap"] = sorted(vis)
+            here["snap_b"] = vis
             pending_local.append(opi)
 
     final_compile = dict(module.macros)
@@ -468,7 +472,7 @@ def build(case, prefix_filtered=False):
         elif k == "snap" and opi not in skip:
             rid = "%d:snap" % opi
             expect[rid] = here["snap"]
-            info[rid] = dict(kind="snap", name="(local-macros)", key=None, opi=opi, want="local-names", hit="snap", stack=here["stack"])
+            info[rid] = dict(kind="snap", name="(local-macros)", key=None, opi=opi, want="local-names", hit="snap", stack=here["stack"], bindings=here["snap_b"])
             classes.add("snap@" + here["level"])
 
     hwarn = []
@@ -757,21 +761,28 @@ def compare(plan, obs):
         e, a = plan["expect"][rid], got[rid]
         if e != a:
             if inf["kind"] == "snap":
-                miss = [x for x in e if x not in a]
+                miss = [x for x in e if not isinstance(a, list) or x not in a]
                 extra = [x for x in a if x not in e] if isinstance(a, list) else a
-                out.append(("local-macros|%s" % ("missing" if miss else "extra"), dict(record=rid, expected=e, actual=a, missing=miss, extra=extra)))
+                bucket = "lost|" + label(inf["bindings"][miss[0]]) if miss else "local-macros|extra"
+                out.append((bucket, dict(record=rid, expected=e, actual=a, missing=miss, extra=extra)))
             else:
-                cls, needs_want = explain(plan, inf, a)
-                out.append(("%s|got=%s%s" % (inf["kind"], cls, "|want=" + inf["want"] if needs_want else ""),
-                            dict(record=rid, name=inf["name"], op=inf["opi"], expected=e, actual=a, expected_from=inf["want"])))
+                cls, _ = explain(plan, inf, a)
+                if cls.split("(")[0] in ("closed-scope", "scope-not-enclosing", "eval-macros-of-another-call", "macro-of-another-name"):
+                    bucket = "%s|stale:%s" % (inf["kind"], cls)  # a definition that should not be visible at all was used
+                elif isinstance(e, int):
+                    bucket = "lost|%s%s" % (inf["want"], "" if cls == "no-macro" else "|used=" + cls)  # the expected definition was not used
+                else:
+                    bucket = "%s|phantom:%s|want=%s" % (inf["kind"], cls, inf["want"])
+                out.append((bucket, dict(record=rid, observed_by=inf["kind"], name=inf["name"], op=inf["opi"], expected=e, actual=a,
+                                         expected_from=inf["want"], actual_from=cls)))
     for rid in got:
         if rid not in plan["expect"]:
             out.append(("record-unexpected", dict(record=rid)))
     if obs["final"] != plan["final"]:
         miss = [x for x in plan["final"] if x not in obs["final"]]
         extra = [x for x in obs["final"] if x not in plan["final"]]
-        how = sorted({plan["final_b"][x]["how"] + ("" if plan["final_b"][x]["exported"] else "(not-exported)") for x in miss})
-        out.append(("module-table|%s" % ("missing:" + ",".join(how) if miss else "extra"), dict(expected=plan["final"], actual=obs["final"], missing=miss, extra=extra)))
+        bucket = "lost|" + label(plan["final_b"][miss[0]]) if miss else "module-table|extra"
+        out.append((bucket, dict(observed_by="final _hy_macros", expected=plan["final"], actual=obs["final"], missing=miss, extra=extra)))
     if not same_warnings(plan["warn"], obs["warn"]):
         e, a = plan["warn"], obs["warn"]
         kind = "missing" if len(a) < len(e) else ("extra" if len(a) > len(e) else "different")
